@@ -61,7 +61,7 @@ def gen_doc(rng, run, k):
     r = rng.random()
     if r < 0.75:
         # a third of the documents stress the date/time format qualifiers (state that is selected by earlier elements)
-        kinds = ['bad_date', 'bad_time'] if r < 0.25 else None
+        kinds = ['bad_date', 'bad_time'] if r < 0.2 else (['bad_code'] if r < 0.4 else None)
         case = _c05.gen_case(rng, run * 3 + k * 5, 'quick', include_fa=True, kinds=kinds)
         if 'doc' in case:
             return _c05.case_text(case), entry['file'], 'faulty' if case['faults'] else 'clean'
@@ -83,9 +83,11 @@ def gen_single(rng, ndocs, kinds=('validate', 'validate', 'validate', 'context',
     d = rng.randrange(ndocs)
     if k == 'validate':
         return {'k': 'validate', 'doc': d, 'sinks': [s for s in ('ack', 'html', 'xml') if rng.random() < 0.6] or ['ack'],
-                'charset': rng.choice(['E', 'E', 'B']), 'bufsize': rng.choice([8192, 8192, 64])}
+                'charset': rng.choice(['E', 'E', 'B']), 'bufsize': rng.choice([8192, 8192, 64]),
+                'exclude': rng.choice([None, None, None, 'states', 'states,country,currency', 'entity_id,remark_code,pos'])}
     if k == 'context':
-        return {'k': 'context', 'doc': d, 'loop_id': rng.choice([None, 'ST_LOOP', 'ISA_LOOP', '2000A', '2300', '2000', '2100', 'NOPE'])}
+        return {'k': 'context', 'doc': d, 'loop_id': rng.choice([None, 'ST_LOOP', 'ISA_LOOP', '2000A', '2300', '2000', '2100', 'NOPE']),
+                'copy_trees': rng.random() < 0.4}
     if k == 'reader':
         return {'k': 'reader', 'doc': d}
     if k == 'xmlrt':
